@@ -19,9 +19,9 @@ Property statements only; lemmas are in `HypatiaProofs/Lemmas/Cqe{Basic,Values,F
 Known finding D11 (bare values / improper operands are returned, not rejected) is the reason the
 converse (`c10_only_spellings_parse_to_queries`) speaks about results that ARE query trees, and
 `c10_outside_language_rejected` carries the syntactic hypothesis `noBare`; what happens without it
-is `c10_outside_language_partial` and the witnesses `c10_d11_*`.  Known finding D17 (names nested
-in range bounds are not substituted) is why the range half of the substitution statement is
-`c10_range_subst_partial` with the witness `c10_d17_witness`.
+is `c10_outside_language_partial` and the witnesses `c10_d11_*`.  The range half of the substitution
+statement (`c10_range_subst`) is at full strength since fix D21 (range bounds go through
+`_get_value`); the witness that used to fail is the regression example `c10_d21_regression`.
 -/
 namespace Hyp.Cqe
 open Hyp.Query (Cmp)
@@ -215,45 +215,52 @@ theorem c10_constant_values_unchanged (names : Names) (v : V) (h : v.names = [])
     getValue names (embedV v) = .ok (embedV v) :=
   getValue_no_names names v h
 
-/- Full statement for ranges (does NOT hold, finding D17): the bounds of a range are substituted
-   like comparator values,
-     resolveLeaf (some m) (embed (.range n i s e sx ex)) =
-       match s.subst σ, e.subst σ with | some a, some b => .ok (.range n i a b sx ex) | _, _ => .error .nameError
-   `_Range._get_start/_get_end` look only at the top level; it holds when each bound is a name or
-   contains no name: -/
-theorem c10_range_subst_partial (m : List (String × W)) (n : Bool) (i : String) (s e : V) (sx ex : Bool)
-    (hs : (∃ x, s = .name x) ∨ s.names = []) (he : (∃ x, e = .name x) ∨ e.names = []) :
+/-- Ranges (as repaired by fix D21): the bounds of a range are substituted like comparator values –
+every name at any depth of lists and tuples; `NameError` when a name of the start bound, or else
+of the end bound, is unbound. -/
+theorem c10_range_subst (m : List (String × W)) (n : Bool) (i : String) (s e : V) (sx ex : Bool) :
     resolveLeaf (some m) (embed (.range n i s e sx ex)) =
       (match s.subst (sigmaOf m), e.subst (sigmaOf m) with
        | some a, some b => .ok (.range n i a b sx ex)
        | _, _ => .error .nameError) := by
-  have key : ∀ b : V, ((∃ x, b = .name x) ∨ b.names = []) →
-      getBound (some m) (embedV b) =
-        (match b.subst (sigmaOf m) with | some w => .ok w | none => .error .nameError) := by
-    intro b hb
-    rcases hb with ⟨x, rfl⟩ | hb
-    · simp only [embedV, getBound, lookupName, V.subst, sigmaOf]
-      cases m.lookup x <;> rfl
-    · have h1 := getValue_no_names (some m) b hb
-      rw [c10_subst] at h1
-      have h2 : getBound (some m) (embedV b) = .ok (embedV b) := by
-        cases b with
-        | name x => simp [V.names] at hb
-        | const c => simp [embedV, getBound]
-        | list l => simp [embedV, getBound]
-        | tuple l => simp [embedV, getBound]
-      rw [h2, h1]
-  simp only [embed, resolveLeaf, key s hs, key e he]
+  simp only [embed, resolveLeaf, c10_subst]
   cases s.subst (sigmaOf m) <;> cases e.subst (sigmaOf m) <;> rfl
 
-/-- D17: the bound `(x, 1)` of `(x, 1) <= a <= …` reaches the index with the `Name` still inside,
-although `x` is bound. -/
-theorem c10_d17_witness :
-    getBound (some [("x", .const (.int 1))]) (embedV (.tuple [.name "x", .const (.int 1)])) =
-      .ok (.tuple [.nameObj "x", .const (.int 1)]) ∧
-    (V.tuple [.name "x", .const (.int 1)]).subst (sigmaOf [("x", .const (.int 1))]) =
-      some (.tuple [.const (.int 1), .const (.int 1)]) := by
-  simp [embedV, embedVs, getBound, V.subst, V.substs, sigmaOf, List.lookup]
+/-- a range leaf raises exactly when a name inside one of its bounds – at any depth – is unbound -/
+theorem c10_range_error_iff (m : List (String × W)) (n : Bool) (i : String) (s e : V) (sx ex : Bool) (err : Err) :
+    resolveLeaf (some m) (embed (.range n i s e sx ex)) = .error err ↔
+      err = .nameError ∧ ∃ x, (x ∈ s.names ∨ x ∈ e.names) ∧ m.lookup x = none := by
+  rw [c10_range_subst]
+  have hs := subst_none_iff (sigmaOf m) s
+  have he := subst_none_iff (sigmaOf m) e
+  cases h1 : s.subst (sigmaOf m) with
+  | none =>
+    obtain ⟨x, hx, hσ⟩ := hs.mp h1
+    simp only [Except.error.injEq]
+    exact ⟨fun h => ⟨h.symm, x, Or.inl hx, hσ⟩, fun h => h.1.symm⟩
+  | some a =>
+    cases h2 : e.subst (sigmaOf m) with
+    | none =>
+      obtain ⟨x, hx, hσ⟩ := he.mp h2
+      simp only [Except.error.injEq]
+      exact ⟨fun h => ⟨h.symm, x, Or.inr hx, hσ⟩, fun h => h.1.symm⟩
+    | some b =>
+      simp only [reduceCtorEq, false_iff, not_and]
+      rintro _ ⟨x, hx | hx, hσ⟩
+      · have := hs.mpr ⟨x, hx, hσ⟩; simp [h1] at this
+      · have := he.mpr ⟨x, hx, hσ⟩; simp [h2] at this
+
+/-- regression (the former D17/D21 witness): the bound `(x, 1)` of `(x, 1) <= a <= (y, 2)` reaches the
+index as `(1, 1)`, and an unbound name inside a list bound raises `NameError`. -/
+theorem c10_d21_regression :
+    resolveLeaf (some [("x", .const (.int 1)), ("y", .const (.int 2))])
+        (embed (.range false "a" (.tuple [.name "x", .const (.int 1)]) (.tuple [.name "y", .const (.int 2)])
+          false false)) =
+      .ok (.range false "a" (.tuple [.const (.int 1), .const (.int 1)])
+        (.tuple [.const (.int 2), .const (.int 2)]) false false) ∧
+    resolveLeaf (some [("x", .const (.int 1))])
+        (embed (.range false "a" (.list [.name "z"]) (.const (.int 5)) true true)) = .error .nameError := by
+  constructor <;> simp [c10_range_subst, V.subst, V.substs, sigmaOf, List.lookup]
 
 /-! ## `==` is structural identity -/
 
